@@ -11,6 +11,7 @@ mod s_chain;
 mod s_determ;
 mod s_engine;
 mod s_expr;
+mod s_exprparse;
 mod s_keys;
 mod s_limits;
 mod s_macros;
@@ -51,6 +52,7 @@ fn main() {
         "params" => s_params::run(&opts),
         "keys" => s_keys::run(&opts),
         "termparse" => s_termparse::run(&opts),
+        "exprparse" => s_exprparse::run(&opts),
         "macros" => s_macros::run(&opts),
         "capi" => s_capi::run(&opts),
         "capi-child" => s_capi::child(&opts),
